@@ -725,6 +725,21 @@ Section Frames.
   Theorem alias_run_inv am ops s : Inv s -> Inv (alias_run am ops s).
   Proof. intros H. rewrite alias_run_twin. apply reachable_inv. exact H. Qed.
 
+  (* ... and so does "one cell per period" (resolving a name does not touch the operand) *)
+  Lemma wf_resolve_op am o : wf_key_op o -> wf_key_op (resolve_op am o).
+  Proof.
+    destruct o as [name v dt|name v hint|k v|kvs|name v]; simpl; try (intros H; exact H).
+    intros H. apply Forall_forall. intros kv Hin. apply in_map_iff in Hin as [[k0 v0] [<- Hin]]. simpl.
+    rewrite Forall_forall in H. exact (H _ Hin).
+  Qed.
+
+  Theorem alias_run_invD am ops s : Forall wf_key_op ops -> InvD s -> InvD (alias_run am ops s).
+  Proof.
+    intros W D. rewrite alias_run_twin. apply reachable_invD; [|exact D].
+    apply Forall_forall. intros o Hin. apply in_map_iff in Hin as [o0 [<- Hin]]. apply wf_resolve_op.
+    rewrite Forall_forall in W. exact (W _ Hin).
+  Qed.
+
   (* aliases create no additional storage: through any history, no series (and no index entry) ever appears under an
      alias name, unless the caller explicitly add_variable's that very name *)
   Theorem alias_no_extra_storage am ops s k :
